@@ -67,12 +67,13 @@ def run_model(conc_name, rng, end_t=6, maxev=14):
         sim.add_listener(Simulator.TIME_CHANGED_EVENT, lst)
         sim.add_listener(ReplicationInterface.WARMUP_EVENT, lst)
         sim.start()
+        _time.sleep(0.001)
+        dd.wait_idle(sim)
+        # (start() returns once the run loop has begun; the run thread ends the replication and finishes)
         t0 = _time.time()
-        while _time.time() - t0 < 20:
-            if sim.run_state.name == "ENDED" or not any(isinstance(t, threading.Thread) and t.is_alive() and getattr(t, "_job", None) is sim for t in threading.enumerate()):
-                break
+        while sim.run_state.name != "ENDED" and _time.time() - t0 < 20:
+            dd.wait_idle(sim)
             _time.sleep(0.001)
-        _time.sleep(0.002)
         if sim.run_state.name != "ENDED":
             errors.append(f"run did not end: {sim.run_state.name}")
         try:
